@@ -5,24 +5,25 @@ Import ListNotations.
 Open Scope N_scope.
 
 (* ---- constants: gen/Consts.v is regenerated from the compiled crates on every check ---- *)
+
 Definition SEQ_INVALID := 4294967295.     (* u32::MAX, private const SequenceNumber::INVALID: covered by the layout stream *)
+
 Definition ext_codes := [EXT_IN_PROGRESS; EXT_ABORTED; EXT_COMPLETE].
+
 Definition int_codes := [INT_IN_PROGRESS; INT_COMPLETE].
+
 Definition boot_codes := [BOOT_UNTESTED; BOOT_SUCCESSFUL; BOOT_UNSUCCESSFUL].
 
 (* ---- little-endian words ---- *)
+
 Definition word_of (b0 b1 b2 b3 : N) : N := b0 + 256 * b1 + 65536 * b2 + 16777216 * b3.
+
 Definition bytes_of (v : N) : list N := [v mod 256; (v / 256) mod 256; (v / 65536) mod 256; (v / 16777216) mod 256].
 
-Lemma bytes_word b0 b1 b2 b3 : b0 < 256 -> b1 < 256 -> b2 < 256 -> b3 < 256 -> bytes_of (word_of b0 b1 b2 b3) = [b0; b1; b2; b3].
-Proof. intros. unfold bytes_of, word_of. repeat f_equal; lia. Qed.
-
-Lemma word_bytes v : v < 4294967296 ->
-  word_of (v mod 256) ((v / 256) mod 256) ((v / 65536) mod 256) ((v / 16777216) mod 256) = v.
-Proof. intros H. unfold word_of. lia. Qed.
-
 (* ---- header ---- *)
+
 Record hdr := { kind : N; seq : N; size : N; count : N; ext : N; int_ : N; boot : N }.
+
 Definition legal (h : hdr) : bool :=
   ((kind h =? KIND_FIRMWARE) || (kind h =? KIND_PARITY)) && negb (seq h =? SEQ_INVALID) && (seq h <? 4294967296)
   && (1 <=? size h) && (size h <=? MAX_SEGMENT_SIZE) && (1 <=? count h) && (count h <=? MAX_SEGMENTS)
@@ -43,72 +44,19 @@ Definition parse (bs : list N) : option hdr :=
 Definition bytes_ok (bs : list N) : Prop := Forall (fun b => b < 256) bs.
 
 (* a 28-byte string parses iff the decoded fields are all legal; parsing then re-encoding reproduces the bytes *)
-Theorem parse_encode bs h : bytes_ok bs -> parse bs = Some h -> encode h = bs /\ legal h = true.
-Proof.
-  intros Hok Hp. unfold parse in Hp.
-  do 28 (destruct bs as [|? bs]; [discriminate|]). destruct bs; [|discriminate].
-  match type of Hp with (if legal ?hh then _ else _) = _ => destruct (legal hh) eqn:L; [|discriminate] end.
-  inversion Hp; subst h. split; [|exact L]. unfold encode; cbn [kind seq size count ext int_ boot].
-  repeat match goal with H : bytes_ok (_ :: _) |- _ => inversion H; clear H; subst end.
-  repeat match goal with H : Forall _ (_ :: _) |- _ => inversion H; clear H; subst end.
-  rewrite !bytes_word by assumption. reflexivity.
-Qed.
-
-Lemma existsb_code_lt v codes : Forall (fun c => c < 4294967296) codes -> existsb (N.eqb v) codes = true -> v < 4294967296.
-Proof. intros HF H. apply existsb_exists in H. destruct H as (c & Hc & E). apply N.eqb_eq in E. subst. rewrite Forall_forall in HF. apply HF; exact Hc. Qed.
-
-Theorem encode_parse h : legal h = true -> parse (encode h) = Some h.
-Proof.
-  intros L. pose proof L as L0. unfold legal in L.
-  repeat (apply andb_prop in L; destruct L as [L ?]).
-  assert (Hk : kind h < 4294967296) by (apply orb_prop in L; destruct L as [E|E]; apply N.eqb_eq in E; rewrite E; reflexivity).
-  assert (Hs : seq h < 4294967296) by (apply N.ltb_lt; assumption).
-  assert (Hz : size h < 4294967296) by (assert (size h <= MAX_SEGMENT_SIZE) by (apply N.leb_le; assumption); unfold MAX_SEGMENT_SIZE in *; lia).
-  assert (Hc : count h < 4294967296) by (assert (count h <= MAX_SEGMENTS) by (apply N.leb_le; assumption); unfold MAX_SEGMENTS in *; lia).
-  assert (He : ext h < 4294967296) by (eapply existsb_code_lt; [|eassumption]; repeat constructor).
-  assert (Hi : int_ h < 4294967296) by (eapply existsb_code_lt; [|eassumption]; repeat constructor).
-  assert (Hb : boot h < 4294967296) by (eapply existsb_code_lt; [|eassumption]; repeat constructor).
-  unfold encode, bytes_of. cbn [app parse]. rewrite !word_bytes by assumption.
-  destruct h as [k s z c e i b]; cbn [kind seq size count ext int_ boot] in *. now rewrite L0.
-Qed.
 
 (* ---- tear safety: generic lemma + instance by computation ---- *)
+
 Definition subset (a b : N) : bool := N.land a b =? a.            (* every 1 of a is a 1 of b *)
+
 Definition tear_safe_b (codes : list N) : bool :=
   forallb (fun old => forallb (fun new => forallb (fun c =>
      if subset c old && subset (N.land old new) c then (c =? old) || (c =? new) else true) codes) codes) codes.
 
-Theorem tear_safe codes : tear_safe_b codes = true ->
-  forall old new mid, In old codes -> In new codes ->
-    N.land mid old = mid -> N.land (N.land old new) mid = N.land old new ->     (* old&new ⊆ mid ⊆ old *)
-    In mid codes -> mid = old \/ mid = new.
-Proof.
-  intros H old new mid Ho Hn H1 H2 Hm. unfold tear_safe_b in H. rewrite forallb_forall in H. specialize (H old Ho).
-  rewrite forallb_forall in H. specialize (H new Hn). rewrite forallb_forall in H. specialize (H mid Hm).
-  unfold subset in H. rewrite H1, H2, !N.eqb_refl in H. cbn [andb] in H.
-  apply orb_prop in H. destruct H as [E|E]; apply N.eqb_eq in E; auto.
-Qed.
-
-Example ext_tear_safe : tear_safe_b ext_codes = true.   Proof. vm_compute. reflexivity. Qed.
-Example int_tear_safe : tear_safe_b int_codes = true.   Proof. vm_compute. reflexivity. Qed.
-Example boot_tear_safe : tear_safe_b boot_codes = true. Proof. vm_compute. reflexivity. Qed.
-
-(* transitions the API performs only clear bits *)
 Definition clears_only (old new : N) : bool := N.land old new =? new.
-Example transitions_clear_only :
-  forallb (fun '(o, n) => clears_only o n)
-    [(EXT_IN_PROGRESS, EXT_ABORTED); (EXT_IN_PROGRESS, EXT_COMPLETE); (INT_IN_PROGRESS, INT_COMPLETE);
-     (BOOT_UNTESTED, BOOT_SUCCESSFUL); (BOOT_UNTESTED, BOOT_UNSUCCESSFUL)] = true.
-Proof. vm_compute. reflexivity. Qed.
-
-(* values deployed bootloaders read (pinned from the property text) *)
-Example codes_pinned :
-  (EXT_COMPLETE, EXT_ABORTED, INT_COMPLETE, BOOT_SUCCESSFUL, BOOT_UNSUCCESSFUL, KIND_FIRMWARE, KIND_PARITY)
-  = (0x44444444, 0xAAAAAAAA, 0x11111111, 0xABCD1234, 0xCDEF7890, 0, 1).
-Proof. reflexivity. Qed.
-Print Assumptions encode_parse.
 
 (* ---- combined status classification (layout.rs / protocol.rs total_status) ---- *)
+
 Inductive tstatus := BlankSlot | AppWriteInProgress | AppWriteAborted | BootloadWriteInProgress
                    | FirstBootPendingAck | ConfirmedImage | RejectedImage | InvalidNeedsErase.
 
@@ -125,7 +73,9 @@ Definition total_status (h : hdr) : tstatus :=
   else InvalidNeedsErase.
 
 (* ---- status marks: one 4-byte program (bitwise AND on NOR) at the field's offset ---- *)
+
 Inductive mark := MAbort | MComplete | MInt | MBootOk | MBootBad.
+
 Definition mark_field (m : mark) : N * N :=       (* (offset, code) *)
   match m with
   | MAbort => (WRITE_EXT_STATUS_OFFSET, EXT_ABORTED) | MComplete => (WRITE_EXT_STATUS_OFFSET, EXT_COMPLETE)
@@ -133,6 +83,7 @@ Definition mark_field (m : mark) : N * N :=       (* (offset, code) *)
   | MBootOk => (BOOT_OUTCOME_OFFSET, BOOT_SUCCESSFUL) | MBootBad => (BOOT_OUTCOME_OFFSET, BOOT_UNSUCCESSFUL)
   end.
 (* the 28 header bytes after programming [code] over the field at [off] *)
+
 Definition apply_mark (m : mark) (bs : list N) : list N :=
   let '(off, code) := mark_field m in
   let cb := bytes_of code in
@@ -141,6 +92,7 @@ Definition apply_mark (m : mark) (bs : list N) : list N :=
       (combine (List.seq 0 (length bs)) bs).
 
 (* ---- a byte string parses iff it is 28 bytes whose seven little-endian words are legal ---- *)
+
 Definition fields_of (bs : list N) : option hdr :=
   match bs with
   | [k0;k1;k2;k3; s0;s1;s2;s3; z0;z1;z2;z3; c0;c1;c2;c3; e0;e1;e2;e3; i0;i1;i2;i3; b0;b1;b2;b3] =>
@@ -149,18 +101,8 @@ Definition fields_of (bs : list N) : option hdr :=
   | _ => None
   end.
 
-Theorem parse_iff_legal bs : (exists h, parse bs = Some h) <-> (exists h, fields_of bs = Some h /\ legal h = true).
-Proof.
-  unfold parse, fields_of.
-  do 28 (destruct bs as [|? bs]; [split; intros (h & H); [discriminate | destruct H; discriminate]|]).
-  destruct bs; [|split; intros (h & H); [discriminate | destruct H; discriminate]].
-  match goal with |- context [legal ?hh] => set (h0 := hh) end.
-  split.
-  - intros (h & H). destruct (legal h0) eqn:L; [|discriminate]. exists h0. split; [reflexivity|exact L].
-  - intros (h & H1 & H2). inversion H1; subst h. rewrite H2. eexists; reflexivity.
-Qed.
-
 (* ---- the classification, stated as a table over the legal codes, checked by computation ---- *)
+
 Definition spec_status (valid : bool) (e i b : N) : tstatus :=
   if negb valid then (if (e =? EXT_IN_PROGRESS) && (i =? INT_IN_PROGRESS) && (b =? BOOT_UNTESTED) then BlankSlot else InvalidNeedsErase)
   else
@@ -179,102 +121,10 @@ Definition tstatus_eqb (a b : tstatus) : bool :=
   | BootloadWriteInProgress, BootloadWriteInProgress | FirstBootPendingAck, FirstBootPendingAck
   | ConfirmedImage, ConfirmedImage | RejectedImage, RejectedImage | InvalidNeedsErase, InvalidNeedsErase => true
   | _, _ => false end.
-Lemma tstatus_eqb_eq a b : tstatus_eqb a b = true -> a = b.
-Proof. destruct a, b; simpl; congruence. Qed.
 
 Definition status_table_ok : bool :=
   forallb (fun e => forallb (fun i => forallb (fun b => forallb (fun s =>
      tstatus_eqb (total_status {| kind := 0; seq := s; size := 1; count := 1; ext := e; int_ := i; boot := b |})
                  (spec_status (negb (s =? SEQ_INVALID)) e i b)) [0; 1; 4294967294; SEQ_INVALID]) boot_codes) int_codes) ext_codes.
 
-Lemma total_status_seq_irrel h h' : ext h = ext h' -> int_ h = int_ h' -> boot h = boot h' ->
-  (seq h =? SEQ_INVALID) = (seq h' =? SEQ_INVALID) -> total_status h = total_status h'.
-Proof. intros He Hi Hb Hs. unfold total_status. rewrite He, Hi, Hb, Hs. reflexivity. Qed.
-
-Theorem total_status_table : status_table_ok = true ->
-  forall h, In (ext h) ext_codes -> In (int_ h) int_codes -> In (boot h) boot_codes ->
-    total_status h = spec_status (negb (seq h =? SEQ_INVALID)) (ext h) (int_ h) (boot h).
-Proof.
-  intros T h He Hi Hb. unfold status_table_ok in T.
-  rewrite forallb_forall in T. specialize (T _ He). rewrite forallb_forall in T. specialize (T _ Hi).
-  rewrite forallb_forall in T. specialize (T _ Hb). rewrite forallb_forall in T.
-  destruct (seq h =? SEQ_INVALID) eqn:S.
-  - specialize (T SEQ_INVALID (or_intror (or_intror (or_intror (or_introl eq_refl))))). apply tstatus_eqb_eq in T.
-    rewrite N.eqb_refl in T. rewrite <- T. apply total_status_seq_irrel; try reflexivity. cbn [seq]. rewrite S, N.eqb_refl. reflexivity.
-  - specialize (T 0 (or_introl eq_refl)). apply tstatus_eqb_eq in T. change (0 =? SEQ_INVALID) with false in T.
-    rewrite <- T. apply total_status_seq_irrel; try reflexivity. cbn [seq]. rewrite S. reflexivity.
-Qed.
-Example status_table_checked : status_table_ok = true. Proof. vm_compute. reflexivity. Qed.
-
 (* ---- lemmas pinned by props/C11.v ---- *)
-Lemma In_existsb v codes : existsb (N.eqb v) codes = true <-> In v codes.
-Proof.
-  rewrite existsb_exists. split.
-  - intros (c & Hc & E). apply N.eqb_eq in E. now subst.
-  - intros H. exists v. split; [exact H|apply N.eqb_refl].
-Qed.
-
-Lemma legal_spelled_out h : legal h = true <->
-  (kind h = KIND_FIRMWARE \/ kind h = KIND_PARITY) /\ seq h <> 4294967295 /\ seq h < 4294967296 /\
-  1 <= size h <= 256 /\ 1 <= count h <= 16384 /\
-  In (ext h) [EXT_IN_PROGRESS; EXT_ABORTED; EXT_COMPLETE] /\
-  In (int_ h) [INT_IN_PROGRESS; INT_COMPLETE] /\
-  In (boot h) [BOOT_UNTESTED; BOOT_SUCCESSFUL; BOOT_UNSUCCESSFUL].
-Proof.
-  unfold legal. rewrite !andb_true_iff, orb_true_iff, negb_true_iff, !N.eqb_eq, N.eqb_neq, N.ltb_lt, !N.leb_le, !In_existsb.
-  unfold SEQ_INVALID, ext_codes, int_codes, boot_codes.
-  change MAX_SEGMENT_SIZE with 256. change MAX_SEGMENTS with 16384. tauto.
-Qed.
-
-Lemma deployed_values :
-  (KIND_OFFSET, SEQUENCE_NUMBER_OFFSET, SEGMENT_SIZE_OFFSET, NUMBER_OF_SEGMENTS_OFFSET,
-   WRITE_EXT_STATUS_OFFSET, WRITE_INT_STATUS_OFFSET, BOOT_OUTCOME_OFFSET, SLOT_HEADER_SIZE)
-  = (0, 4, 8, 12, 16, 20, 24, 28) /\
-  (KIND_FIRMWARE, KIND_PARITY) = (0, 1) /\
-  (EXT_IN_PROGRESS, EXT_ABORTED, EXT_COMPLETE) = (0xFFFFFFFF, 0xAAAAAAAA, 0x44444444) /\
-  (INT_IN_PROGRESS, INT_COMPLETE) = (0xFFFFFFFF, 0x11111111) /\
-  (BOOT_UNTESTED, BOOT_SUCCESSFUL, BOOT_UNSUCCESSFUL) = (0xFFFFFFFF, 0xABCD1234, 0xCDEF7890) /\
-  (DATA_NOT_WRITTEN, DATA_WRITTEN) = (0xFF, 0x33) /\
-  (WRITTEN_OFFSET, DATA_REGION_OFFSET, DATA_PAYLOAD_OFFSET) = (0x400, 0x4400, 0x4444) /\
-  (MAX_SEGMENT_SIZE, MAX_SEGMENTS) = (256, 16384).
-Proof. repeat split. Qed.
-
-Lemma original_same_values :
-  (O_KIND_OFFSET, O_SEQUENCE_NUMBER_OFFSET, O_SEGMENT_SIZE_OFFSET, O_NUMBER_OF_SEGMENTS_OFFSET,
-   O_WRITE_EXT_STATUS_OFFSET, O_WRITE_INT_STATUS_OFFSET, O_BOOT_OUTCOME_OFFSET, O_SLOT_HEADER_SIZE,
-   O_KIND_FIRMWARE, O_KIND_PARITY, O_EXT_IN_PROGRESS, O_EXT_ABORTED, O_EXT_COMPLETE, O_INT_IN_PROGRESS, O_INT_COMPLETE,
-   O_BOOT_UNTESTED, O_BOOT_SUCCESSFUL, O_BOOT_UNSUCCESSFUL, O_DATA_NOT_WRITTEN, O_DATA_WRITTEN,
-   O_WRITTEN_OFFSET, O_DATA_REGION_OFFSET, O_DATA_PAYLOAD_OFFSET, O_MAX_SEGMENT_SIZE, O_MAX_SEGMENTS)
-  = (KIND_OFFSET, SEQUENCE_NUMBER_OFFSET, SEGMENT_SIZE_OFFSET, NUMBER_OF_SEGMENTS_OFFSET,
-   WRITE_EXT_STATUS_OFFSET, WRITE_INT_STATUS_OFFSET, BOOT_OUTCOME_OFFSET, SLOT_HEADER_SIZE,
-   KIND_FIRMWARE, KIND_PARITY, EXT_IN_PROGRESS, EXT_ABORTED, EXT_COMPLETE, INT_IN_PROGRESS, INT_COMPLETE,
-   BOOT_UNTESTED, BOOT_SUCCESSFUL, BOOT_UNSUCCESSFUL, DATA_NOT_WRITTEN, DATA_WRITTEN,
-   WRITTEN_OFFSET, DATA_REGION_OFFSET, DATA_PAYLOAD_OFFSET, MAX_SEGMENT_SIZE, MAX_SEGMENTS).
-Proof. reflexivity. Qed.
-
-Lemma tear_safe_all codes : In codes [ext_codes; int_codes; boot_codes] ->
-  forall old new mid, In old codes -> In new codes ->
-    N.land mid old = mid -> N.land (N.land old new) mid = N.land old new ->
-    In mid codes -> mid = old \/ mid = new.
-Proof.
-  intros [H|[H|[H|[]]]]; subst codes; apply tear_safe;
-    [exact ext_tear_safe | exact int_tear_safe | exact boot_tear_safe].
-Qed.
-
-Lemma mark_effect m bs : length bs = 28%nat ->
-  length (apply_mark m bs) = 28%nat /\
-  forall k, (k < 28)%nat ->
-    nth k (apply_mark m bs) 0 =
-      (if (fst (mark_field m) <=? N.of_nat k) && (N.of_nat k <? fst (mark_field m) + 4)
-       then N.land (nth k bs 0) (nth (k - N.to_nat (fst (mark_field m))) (bytes_of (snd (mark_field m))) 255)
-       else nth k bs 0).
-Proof.
-  intros L. unfold apply_mark. destruct (mark_field m) as [off code] eqn:E. cbn [fst snd].
-  split; [rewrite map_length, combine_length, seq_length, L; reflexivity|].
-  intros k Hk.
-  assert (Hn : nth k (combine (List.seq 0 (length bs)) bs) (0%nat, 0) = (k, nth k bs 0)).
-  { rewrite combine_nth by (rewrite seq_length; reflexivity). rewrite seq_nth by (rewrite L; exact Hk). reflexivity. }
-  set (f := fun '(i, b) => let k0 := N.of_nat i in if (off <=? k0) && (k0 <? off + 4) then N.land b (nth (N.to_nat (k0 - off)) (bytes_of code) 255) else b).
-  rewrite (nth_indep _ 0 (f (0%nat, 0))) by (rewrite map_length, combine_length, seq_length, L; cbn; exact Hk).
-  rewrite map_nth, Hn. unfold f. cbv zeta. rewrite N2Nat.inj_sub, Nat2N.id. reflexivity.
-Qed.
